@@ -402,8 +402,14 @@ impl Keyword {
 
     /// Convert this keyword to a `regex::Regex` object.
     pub fn to_regex(&self) -> regex::Regex {
+        self.try_to_regex().unwrap()
+    }
+
+    /// Convert this keyword to a `regex::Regex` object; fails when the compiled pattern would
+    /// exceed the size limit of the regex crate (a very long pattern with many wildcards or blanks)
+    pub fn try_to_regex(&self) -> Result<regex::Regex, regex::Error> {
         if self.1 == KeywordType::Regex {
-            return regex::Regex::new(&self.0).unwrap();
+            return regex::Regex::new(&self.0);
         }
 
         let mut regex_str = regex::escape(&self.0.replace("\\\"", "\"")).replace(' ', "\\s");
@@ -417,7 +423,7 @@ impl Keyword {
             }
         }
 
-        regex::Regex::new(&regex_str).unwrap()
+        regex::Regex::new(&regex_str)
     }
 }
 
